@@ -269,3 +269,18 @@ Proof.
   destruct (H s d (or_introl C)) as (x & N & P). eapply pc_of_serve; eassumption.
 Qed.
 
+
+(* serves_while_clients: whatever happens next (any label of any process), if the
+   client is still connected afterwards, its daemon is still inside the serve loop;
+   a daemon leaves the loop only through LLeave of its last client, a signal or a
+   crash, and the last two turn every client into SDropped/SErr in the same step *)
+Lemma serves_while_clients st0 ls st l st' s d :
+  initial st0 -> run st0 ls = Some st -> step st l = Some st' ->
+  nth_error (ss st) s = Some (SConn d) -> nth_error (ss st') s = Some (SConn d) ->
+  pc_of st d = DServe /\ pc_of st' d = DServe.
+Proof.
+  intros I R S C C'. pose proof (I1_run ls st0 st (I1_initial _ I) R) as H.
+  pose proof (I1_step st l st' H S) as H'.
+  destruct (H s d (or_introl C)) as (x & N & P). destruct (H' s d (or_introl C')) as (x' & N' & P').
+  split; eapply pc_of_serve; eassumption.
+Qed.
